@@ -64,6 +64,8 @@ int mexAtExit(void (*fn)(void));
 const mxArray *mexGetVariablePtr(const char *ws, const char *name);
 mxArray *mexGetVariable(const char *ws, const char *name);
 int mexPutVariable(const char *ws, const char *name, const mxArray *v);
+/* the gateway entry point has C linkage, as in MathWorks' mex.h */
+void mexFunction(int nlhs, mxArray *plhs[], int nrhs, const mxArray *prhs[]);
 #ifdef __cplusplus
 }
 #endif
